@@ -12,6 +12,7 @@
 import TxVerif.Model.Engine
 import TxVerif.Model.AllocOps
 import TxVerif.Model.Resize
+import TxVerif.Model.EngineTrace
 namespace TxVerif
 
 structure EngSt where
@@ -42,6 +43,14 @@ structure EngSt where
   /-- the alternative outcome (state, persisted data end marker) the next snapshot may show -/
   alt : Option (FileSt × Nat) := none
   alloc0 : Alloc := {}        -- allocator state when the running transaction began
+  /-- the vfs trace (Model/EngineTrace.lean) of the running transaction so far: flushes and checkpoints -/
+  acc : List TOp := []
+  /-- the model's vfs trace of the transaction that just ended, and whether it committed; compared with the
+      next `vfs` line (the file-level operations the implementation issued for it) -/
+  pend : Option (List TOp × Bool) := none
+  /-- the active header slot, once a commit showed it (`none` after every open) -/
+  slot : Option Nat := none
+  vfsChecked : Nat := 0       -- `vfs` lines compared
   checked : Nat := 0
   mismatches : List String := []
   deriving Inhabited
@@ -188,6 +197,61 @@ def openExisting (s : EngSt) (rest : List String) (line : String) (isResize : Bo
     let s := { s with f := s.f.reopenP, tx := none, resync := true, resized := true, diskDE := none }
     if isResize then { s with resizesAdopted := s.resizesAdopted + 1 } else s.ok
 
+/-! ### the vfs trace of the model against the file-level operations of the implementation
+
+  The crash theorems (Props/C01Engine, C08Engine, C14Crash) are about the traces `flushListT`, `doCheckpointT`,
+  `commitT` of Model/EngineTrace.lean.  Here the same functions are evaluated along the replay and compared
+  with what the implementation issued between `Begin` and the end of `Commit` / `Rollback` (harness:
+  `Session.emitVfs`): the pages written (as a multiset: the asynchronous writer of write.go re-orders writes
+  between two syncs), and for a commit the sequence `sync, header into the inactive slot, sync`; a
+  transaction that does not commit writes no header and issues no sync that could make it durable.
+  Truncates (`checkTruncate`, `rollbackChanges`: they depend on the file size, which the model does not
+  carry) are skipped. -/
+
+def insertNat (x : Nat) : List Nat → List Nat
+  | [] => [x]
+  | y :: ys => if x ≤ y then x :: y :: ys else y :: insertNat x ys
+
+def sortNats (l : List Nat) : List Nat := l.foldr insertNat []
+
+def traceWrites (tr : List TOp) : List Nat :=
+  sortNats (tr.filterMap fun | .write p _ => some p | _ => none)
+
+/-- syncs and header writes of a model trace, in order (`h?` while the active slot is unknown) -/
+def traceCtl (slotKnown : Bool) (tr : List TOp) : List String :=
+  tr.filterMap fun
+    | .sync => some "s"
+    | .hdr k _ _ => some (if slotKnown then s!"h{k}" else "h?")
+    | _ => none
+
+def vfsWrites (toks : List String) : List Nat :=
+  sortNats (toks.filterMap fun t => if t.startsWith "w" then (t.drop 1).toNat? else none)
+
+def vfsCtl (slotKnown : Bool) (toks : List String) : List String :=
+  toks.filterMap fun t =>
+    if t.startsWith "w" || t.startsWith "t" || t == "-" || t == "" then none
+    else if t.startsWith "h" && !slotKnown then some "h?" else some t
+
+def vfsSlot (toks : List String) : Option Nat :=
+  (toks.filter (·.startsWith "h")).getLast?.bind fun t => (t.drop 1).toNat?
+
+def vfsStep (s : EngSt) (line : String) (ops : String) : EngSt :=
+  match s.pend with
+  | none => s   -- transaction not replayed (failed Open before, injected fault): nothing to compare
+  | some (tr, committed) =>
+    let toks := ops.splitOn ","
+    let s := { s with pend := none }
+    let known := s.slot.isSome
+    if traceWrites tr != vfsWrites toks then
+      s.miss line s!"vfs: model writes pages {traceWrites tr}"
+    else if committed then
+      if traceCtl known tr != vfsCtl known toks then s.miss line s!"vfs: model issues {traceCtl known tr}"
+      else { s with slot := vfsSlot toks, vfsChecked := s.vfsChecked + 1 }.ok
+    else
+      -- no commit: no header write; syncs of a failing commit are allowed (nothing new can become the state)
+      if (vfsCtl true toks).any (·.startsWith "h") then s.miss line "vfs: header written by a transaction that did not commit"
+      else { s with vfsChecked := s.vfsChecked + 1 }.ok
+
 /-- process one trace line -/
 def engStep (s : EngSt) (line : String) : EngSt :=
   let (lhs, res) := match line.splitOn " => " with
@@ -215,17 +279,18 @@ def engStep (s : EngSt) (line : String) : EngSt :=
       let unbound := (fieldNat rest "flags" / 2) % 2 == 1
       let mx := if unbound then 0 else fieldNat rest "maxsize"
       let f0 := if unbound then FileSt.create ps 0 (fieldNat rest "meta") else f0
-      { s with f := f0, created := true, tx := none, diskDE := some f0.alloc.data.endMarker, hdrMax := mx }.ok
-    else openExisting s rest line false
-  | "resize-grow" :: rest => openExisting s rest line true
-  | "resize-shrink" :: rest => openExisting s rest line true
-  | "resize-unbound" :: rest => openExisting s rest line true
+      { s with f := f0, created := true, tx := none, diskDE := some f0.alloc.data.endMarker, hdrMax := mx, slot := none, pend := none }.ok
+    else openExisting { s with slot := none, pend := none } rest line false
+  | "resize-grow" :: rest => openExisting { s with slot := none, pend := none } rest line true
+  | "resize-shrink" :: rest => openExisting { s with slot := none, pend := none } rest line true
+  | "resize-unbound" :: rest => openExisting { s with slot := none, pend := none } rest line true
+  | ["vfs", ops] => vfsStep s line ops
   | ["closefile"] => s
   | "begin" :: rest =>
     if rkind != "ok" then s.miss line "begin failed" else
     let ovf := (field rest "ovf").getD "false" == "true"
     -- states reached after a transaction used the overflow area are outside `allocWF`
-    { s with tx := some (s.f.beginTx ovf (fieldNat rest "grow") (fieldNat rest "wal")), resized := s.resized || ovf, alloc0 := s.f.alloc }.ok
+    { s with tx := some (s.f.beginTx ovf (fieldNat rest "grow") (fieldNat rest "wal")), resized := s.resized || ovf, alloc0 := s.f.alloc, acc := [], pend := none }.ok
   | ["alloc", n] =>
     match s.tx, n.toNat? with
     | some tx, some n =>
@@ -284,7 +349,7 @@ def engStep (s : EngSt) (line : String) : EngSt :=
       match r with
       | .ok (f, tx, w) =>
         let mine := match w with | some w => [(id, w)] | none => []
-        if res == "ok" && mine == fl then { s with f := f, tx := some tx }.ok
+        if res == "ok" && mine == fl then { s with f := f, tx := some tx, acc := s.acc ++ writeOpt f w }.ok
         else s.miss line s!"model: ok, flushed {mine}"
       | .error e => if res == e.show then s.ok else s.miss line s!"model: {e.show}"
     | _, _ => s.miss line "bad flushpage"
@@ -292,9 +357,11 @@ def engStep (s : EngSt) (line : String) : EngSt :=
     match s.tx with
     | some tx =>
       let (fl, _) := parseRec rec
+      let tx0 := tx
       match flushList s.f tx (fl.map (·.1)) with
       | .ok (f, tx, ws) =>
         if ws != fl then s.miss line s!"model flushes {ws}" else
+        let s := { s with acc := s.acc ++ flushListT s.f tx0 (fl.map Prod.fst) }
         if res == "ok" then
           if tx.unflushed.isEmpty then { s with f := f, tx := some tx }.ok
           else s.miss line s!"model: dirty pages left unflushed {tx.unflushed}"
@@ -307,8 +374,9 @@ def engStep (s : EngSt) (line : String) : EngSt :=
     match s.tx with
     | some tx =>
       let (_, ck) := parseRec rec
+      let tx0 := tx
       let (f, tx, copied) := doCheckpoint s.f tx
-      if res == "ok" && sortPairs ck == sortPairs copied then { s with f := f, tx := some tx }.ok
+      if res == "ok" && sortPairs ck == sortPairs copied then { s with f := f, tx := some tx, acc := s.acc ++ doCheckpointT s.f tx0 }.ok
       else s.miss line s!"model copies {copied}"
     | none => s.miss line "no transaction"
   | ["setroot", id] =>
@@ -319,10 +387,15 @@ def engStep (s : EngSt) (line : String) : EngSt :=
     match s.tx with
     | some tx =>
       let (fl, ck) := parseRec rec
+      let tx0 := tx
       match flushList s.f tx (fl.map (·.1)) with
       | .error e => s.miss line s!"model: recorded flush order fails with {e.show}"
       | .ok (f, tx, ws) =>
         if ws != fl then s.miss line s!"model flushes {ws}" else
+        -- the model's vfs trace of the whole transaction (Model/EngineTrace.lean), for the `vfs` line
+        let trc := s.acc ++ flushListT s.f tx0 (fl.map Prod.fst) ++
+          (if tx.unflushed.isEmpty then commitT (s.slot.getD 0) f tx else [])
+        let s := { s with acc := [], pend := some (trc, tx.unflushed.isEmpty && (commitAfterFlush f tx).2.1 == .ok) }
         if rtoks.contains "!io" then
           -- the commit failed because of an injected I/O fault: every such failure ends in a rollback
           if rkind.startsWith "err:" then (endTx s (txAbort f tx)).ok else s.miss line "I/O fault but commit succeeded"
@@ -342,7 +415,7 @@ def engStep (s : EngSt) (line : String) : EngSt :=
     | none => s.miss line "no transaction"
   | ["rollback"] | ["close"] =>
     match s.tx with
-    | some tx => (endTx s (txAbort s.f tx)).ok
+    | some tx => (endTx { s with pend := some (s.acc, false), acc := [] } (txAbort s.f tx)).ok
     | none => s.ok
   | "readcheck" :: rest =>
     let mine := (rest.map fun t =>
